@@ -821,3 +821,190 @@ num_harness!(num_expt_reciprocal, 6, {
     }
     core::mem::forget(res);
 });
+
+// ------------------------------------------------------------------ ordering (<, <=, >, >= and the LTE* opcodes all go through partial_cmp)
+use core::cmp::Ordering as Ord3;
+
+/// exact comparison of a machine integer with a finite double
+fn exact_cmp_int_float(i: isize, f: f64) -> Ord3 {
+    if f >= 9223372036854775808.0 {
+        Ord3::Less
+    } else if f < -9223372036854775808.0 {
+        Ord3::Greater
+    } else {
+        let t = f.trunc(); // integral and inside [-2^63, 2^63): the cast below is exact
+        let ti = t as i128;
+        let ii = i as i128;
+        if ii < ti {
+            Ord3::Less
+        } else if ii > ti {
+            Ord3::Greater
+        } else if f > t {
+            Ord3::Less
+        } else if f < t {
+            Ord3::Greater
+        } else {
+            Ord3::Equal
+        }
+    }
+}
+
+// (< i f), (< f i) ...: an exact integer against a double, every integer and every finite double
+num_harness!(num_cmp_int_float, 4, {
+    let i: isize = kani::any();
+    let f: f64 = kani::any();
+    kani::assume(f.is_finite());
+    let a = IntV(i);
+    let b = NumV(f);
+    let e = exact_cmp_int_float(i, f);
+    let r1 = a.partial_cmp(&b);
+    let r2 = b.partial_cmp(&a);
+    kani::cover!(e == Ord3::Equal, "equal");
+    kani::cover!(e != Ord3::Equal && (i as f64) == f, "the integer rounds to the double but differs from it");
+    kani::cover!(e == Ord3::Less && i > 0, "less");
+    vassert!(r1 == Some(e), "ordering of an exact integer and a double disagrees with their exact values");
+    vassert!(r2 == Some(e.reverse()), "ordering of a double and an exact integer disagrees with their exact values");
+    core::mem::forget(a);
+    core::mem::forget(b);
+});
+
+num_harness!(num_cmp_ii, 4, {
+    let x: isize = kani::any();
+    let y: isize = kani::any();
+    let a = IntV(x);
+    let b = IntV(y);
+    let r = a.partial_cmp(&b);
+    kani::cover!(x < y, "less");
+    kani::cover!(x == y, "equal");
+    vassert!(r == Some((x as i128).cmp(&(y as i128))), "ordering of two machine integers is wrong");
+    core::mem::forget(a);
+    core::mem::forget(b);
+});
+
+// a machine integer against a big integer just beyond +-2^63, both argument orders
+num_harness!(num_cmp_int_big, 8, {
+    let x: isize = kani::any();
+    let off: u16 = kani::any();
+    let neg: bool = kani::any();
+    let d: i128 = if neg { -((1i128 << 63) + 1 + off as i128) } else { (1i128 << 63) + off as i128 };
+    let a = IntV(x);
+    let b = big(d);
+    let e = (x as i128).cmp(&d);
+    let r1 = a.partial_cmp(&b);
+    let r2 = b.partial_cmp(&a);
+    kani::cover!(neg && x < 0, "negative big integer against a negative machine integer");
+    kani::cover!(!neg && x > 0, "positive big integer against a positive machine integer");
+    vassert!(r1 == Some(e), "ordering of a machine integer and a big integer is wrong");
+    vassert!(r2 == Some(e.reverse()), "ordering of a big integer and a machine integer is wrong");
+    core::mem::forget(a);
+    core::mem::forget(b);
+});
+
+// a reduced rational n/d (d in 2..=7, every i32 numerator coprime to it) against every machine integer
+num_harness!(num_cmp_rational_int, 4, {
+    let n: i32 = kani::any();
+    let d: i32 = kani::any();
+    kani::assume(d == 2 || d == 3 || d == 5 || d == 7);
+    kani::assume(n % d != 0);
+    let y: isize = kani::any();
+    let a = Rational(Rational32::new_raw(n, d));
+    let b = IntV(y);
+    // n/d <=> y  iff  n <=> y*d  (d > 0); exact in i128
+    let e = (n as i128).cmp(&((y as i128) * (d as i128)));
+    let r1 = a.partial_cmp(&b);
+    let r2 = b.partial_cmp(&a);
+    kani::cover!(n == i32::MIN, "most negative numerator");
+    kani::cover!(y > i32::MAX as isize, "integer beyond 32 bits");
+    kani::cover!(e == Ord3::Less && y < 0, "less, negative");
+    vassert!(e != Ord3::Equal, "harness: a non-integral rational cannot equal an integer");
+    vassert!(r1 == Some(e), "ordering of a rational and an integer is wrong");
+    vassert!(r2 == Some(e.reverse()), "ordering of an integer and a rational is wrong");
+    core::mem::forget(a);
+    core::mem::forget(b);
+});
+
+// ------------------------------------------------------------------ floor / ceiling / truncate / round of a rational
+// n/d for every i32 numerator and d in {2,3,5,7} coprime to it: the result is the exact integer.
+macro_rules! rational_rounding {
+    ($name:ident, $f:ident, $which:expr) => {
+        num_harness!($name, 6, {
+            let n: i32 = kani::any();
+            let d: i32 = kani::any();
+            kani::assume(d == 2 || d == 3 || d == 5 || d == 7);
+            kani::assume(n % d != 0);
+            let q = Rational(Rational32::new_raw(n, d));
+            let r = $f(&q);
+            let (n6, d6) = (n as i64, d as i64);
+            let fl = n6.div_euclid(d6); // d > 0: floor
+            let e: i64 = match $which {
+                0 => fl,
+                1 => fl + 1, // not integral: ceiling = floor + 1
+                2 => if n6 < 0 { fl + 1 } else { fl },
+                _ => {
+                    // round half to even: compare twice the remainder with d
+                    let rem = n6.rem_euclid(d6);
+                    if 2 * rem < d6 { fl } else if 2 * rem > d6 { fl + 1 } else if fl % 2 == 0 { fl } else { fl + 1 }
+                }
+            };
+            kani::cover!(n < -2147483600, "numerator near i32::MIN");
+            kani::cover!(n > 2147483600, "numerator near i32::MAX");
+            kani::cover!(d == 2 && (n6.div_euclid(2)) % 2 != 0, "tie, odd floor");
+            match &r {
+                Ok(v) => {
+                    check_exact_int(v, e as i128);
+                }
+                Err(_) => {
+                    vassert!(false, "rounding a rational returned an error");
+                }
+            }
+            core::mem::forget(r);
+            core::mem::forget(q);
+        });
+    };
+}
+rational_rounding!(num_floor_rational, floor, 0);
+rational_rounding!(num_ceiling_rational, ceiling, 1);
+rational_rounding!(num_truncate_rational, truncate, 2);
+rational_rounding!(num_round_rational, round, 3);
+
+// n/3 + y and y + n/3 for every i32 numerator not divisible by 3 and every machine integer y
+#[kani::proof]
+#[kani::unwind(8)]
+#[kani::stub(std::rt::thread_cleanup, noop)]
+#[kani::stub(alloc::fmt::format, fmt_stub)]
+#[kani::stub(core::arch::x86_64::_addcarry_u64, addcarry_stub)]
+#[kani::stub(core::arch::x86_64::_subborrow_u64, subborrow_stub)]
+#[kani::stub(num_rational::Ratio::new, ratio_new_reduced_stub)]
+fn num_add_rational_i() {
+    tag_init();
+    num_add_rational_i_body();
+}
+fn num_add_rational_i_body() {
+    let n: i32 = kani::any();
+    kani::assume(n % 3 != 0);
+    let y: i32 = kani::any();
+    let swap: bool = kani::any();
+    let q = Rational(Rational32::new_raw(n, 3));
+    let b = IntV(y as isize);
+    let r = if swap { add_two(&b, &q) } else { add_two(&q, &b) };
+    let e: i64 = n as i64 + 3 * (y as i64);
+    kani::cover!(e > i32::MAX as i64, "sum's numerator beyond 32 bits");
+    kani::cover!(e >= i32::MIN as i64 && e <= i32::MAX as i64, "stays small");
+    match &r {
+        Ok(Rational(x)) => {
+            vassert!(*x.numer() as i64 == e && *x.denom() == 3, "rational + integer has the wrong value");
+        }
+        Ok(BigRational(x)) => {
+            vassert!(e < i32::MIN as i64 || e > i32::MAX as i64, "small rational promoted without need");
+            vassert!(x.numer().to_i64() == Some(e) && x.denom().to_i64() == Some(3), "rational + integer (promoted) has the wrong value");
+        }
+        Ok(_) => {
+            vassert!(false, "a non-integral rational plus an integer gave a non-rational");
+        }
+        Err(_) => {
+            vassert!(false, "rational + integer returned an error");
+        }
+    }
+    core::mem::forget(r);
+    core::mem::forget(q);
+}
